@@ -63,8 +63,10 @@ def gen_plan(rng, idx, fault_population=False):
     edges = {}
     probes = {}
     shape = rng.choice(['random', 'random', 'cycle', 'chain', 'diamond', 'star'])
+    use_define = rng.random() < 0.3
     for i, (stem, name) in enumerate(zip(stems, names)):
         targets = []
+        local_def = rng.random() < 0.2
         if shape == 'random':
             for _ in range(rng.choice([0, 1, 1, 2, 3, 4])):
                 targets.append(rng.randrange(nfiles))
@@ -95,6 +97,16 @@ def gen_plan(rng, idx, fault_population=False):
             with_suffix = rng.random() < 0.3
             ref = names[t] if with_suffix else stems[t]
             form = rng.choice(EDGE_FORMS)
+            # wrappers made with \def: from the --define file, or defined in
+            # the document itself before their use
+            r_ = rng.random()
+            if use_define and r_ < 0.35:
+                form = '\\incw{%s}\n'
+                if ref.startswith('sub/') and rng.random() < 0.5:
+                    form = '\\input{\\cdir/%s}\n'
+                    ref = ref[4:]
+            elif local_def and r_ < 0.5:
+                form = '\\locinc{%s}\n'
             if form.count('%s') == 2:
                 t2 = rng.randrange(nfiles)
                 ref2 = stems[t2]
@@ -113,6 +125,8 @@ def gen_plan(rng, idx, fault_population=False):
                            docgen.frag(kind, form % d))
         if rng.random() < 0.2:
             frs.insert(rng.randrange(len(frs) + 1), docgen.f_footnote(rng, W, {}))
+        if local_def:
+            frs[0]['s'] = '\\def\\locinc#1{\\include{#1}}\n' + frs[0]['s']
         first = frs[0]
         rest = frs[1:]
         rng.shuffle(rest)
@@ -152,11 +166,17 @@ def gen_plan(rng, idx, fault_population=False):
         else:
             skip = '.*' + re.escape(stem[-1]) + '\\.tex'
     argv = ['--lt-command', 'simlt', '--include']
+    if use_define:
+        files['cdefs.tex'] = {'frags': [docgen.frag(
+            'defs', '\\def\\incw#1{\\input{#1}}\n\\def\\cdir{sub}\n')]}
+        argv += ['--define', 'cdefs.tex']
     if skip is not None:
         argv += ['--skip', skip]
     argv += ['--output', rng.choice(['plain', 'plain', 'json', 'xml'])]
     argv += roots
     lit = [w for n in files for w in docgen.literal_words(files[n]['frags'])]
+    if use_define:
+        probes_hint = 'define'
     peer = {'targets': rng.sample(lit, min(len(lit), 2)), 'dup': []}
     plan = {'kind': 'shell', 'argv': argv, 'files': files, 'peer': peer,
             'names': roots, 'roots': roots, 'skip': skip, 'graph_names': names,
@@ -409,6 +429,11 @@ def evaluate(plan):
                 probes[fr['k']] = 1
     if _has_cycle(edges, got):
         probes['cycle'] = 1
+    if '--define' in plan['argv']:
+        probes['def_wrappers_from_define_file'] = 1
+    if any('\\locinc' in fr['s'] for sp in plan['files'].values()
+           for fr in sp['frags']):
+        probes['def_wrapper_in_document'] = 1
     shape = graph_shape(plan)
     return core.ok(obs['digest'], probes=probes, nontrivial=shape, **kw)
 
